@@ -13,6 +13,8 @@ THEOREMS = [
     "C12.ws_defined_iff",
     "C12.manager_places_once",
     "C12.manager_invariant",
+    "C12.wm_model_meets_spec",
+    "C12.wm_trace_defined",
     "C12.alpha_model_meets_spec",
     "C12.alpha_never_fails",
     "C12.alpha_sliding_retains_exactly",
@@ -41,8 +43,6 @@ TRUSTED = [
     "harness/src/bin/c12.rs, Driver/C12.lean parsing/printing glue (incl. IEEE division for average on the driver side), check.py diff",
     "hook: #[cfg(rre_verif)] thread-local clock override read by StreamAlphaNode::current_time_ms (hooks-C12.patch); with the cfg "
     "off the function reads the system clock as before",
-    "WindowManager: the full observation-level step predicate wmStepOk (frame clause, exactly-one-occurrence count) is evaluated by "
-    "the oracle and diffed against the model but proved only in part (manager_places_once, manager_invariant)",
     "not modelled: session windows of StreamAlphaNode, the sliding/session branch of WindowedStream::new, the non-numeric aggregates "
     "(CountDistinct, StdDev, Percentile, First, Last, CountBy), StreamAnalytics",
 ]
@@ -67,12 +67,12 @@ def classify(case, impl, model, oracle, kind):
 LEVEL_TEXT = ("Lean 4 theorems (kernel-checked, unbounded: every duration/cap/limit, every finite event history in any arrival order, "
               "every clock sequence) that the executable model of TimeWindow (add_event, record), tumbling WindowedStream::new, "
               "StreamAlphaNode (none/sliding/tumbling, explicit clock) and the aggregates satisfies the observation-level specs "
-              "twRunOk / wsOk / anRunOk / aggOk, plus aligned_contains/aligned_unique, record_retains_exactly, "
+              "twRunOk / wmRunOk / wsOk / anRunOk / aggOk, plus aligned_contains/aligned_unique, record_retains_exactly, "
               "windowed_stream_partition, manager_places_once + manager_invariant for WindowManager::process_event, and machine-checked "
               "counterexamples for the pre-fix eviction (F-C12) and the pre-fix tumbling roll-over (F-C12b); tied to the Rust code by a "
               "correspondence check (exhaustive short sequences + random longer ones, every public entry point, observations after every call) "
               "and by evaluating the same Spec predicates on the implementation's observations.")
 LEVEL_NOTE = ("Trusted: Lean kernel + {propext, Classical.choice, Quot.sound}; hand-written model tied to the code by differential testing only; "
-              "harness/driver glue; clock hook. Partial: the WindowManager step predicate wmStepOk is proved only in its placement/invariant part "
-              "(wm_model_meets_spec_full is stated, not proved); session windows and sliding WindowedStream are outside the model.")
+              "harness/driver glue; clock hook. Session windows of StreamAlphaNode, sliding/session WindowManager (correspondence only) "
+              "and the sliding/session branch of WindowedStream::new are outside the theorems.")
 DESIGN_REF = "§6 C12"
